@@ -45,20 +45,15 @@ type Ldb struct {
 func (f *Ldb) Call(s *slip.Scope, args slip.List, depth int) (result slip.Object) {
 	// Helper functions are defined in deposit-field.go.
 	slip.CheckArgCount(s, depth, f, args, 2, 2)
-	integer, _ := ToUnsignedByte(s, args[1], "integer", depth)
+	integer := integerArg(s, args[1], "integer", depth)
 	size, pos := byteSpecArg(s, args[0], depth)
 
-	max := uint(integer.Size())
-	ub := slip.UnsignedByte{Bytes: make([]byte, size/8+1)}
-	for i := uint(0); i < uint(size); i++ {
-		off := i + uint(pos)
-		if max <= off {
-			break
-		}
-		ub.SetBit(i, integer.GetBit(off))
+	// Rsh and And treat a negative value as a sign extended two's complement
+	// number.
+	var bi big.Int
+	_ = bi.And(bi.Rsh(integer, uint(pos)), byteMask(size))
 
-	}
-	return convertUnsignedByte(&ub, args[1], false)
+	return integerResult(&bi, args[1])
 }
 
 // Place a value in the first position of a list or cons.
